@@ -48,6 +48,8 @@ def check(repo, col, tier):
     c06.checkpoint_padding(repo, col, "R-C08-time")
     from . import c11
     c11.keyclass_on_base(repo, col, "R-C08-keyclass")
+    from . import c19
+    c19.record_dedup(repo, col, "R-C08-recs")
 
 
 def _named_dict(node: ast.AST):
@@ -431,75 +433,164 @@ def _time(repo, col, R="R-C08-time"):
     fi = repo.func("jaxley/integrate.py", "integrate")
     ex = idx.expander(repo, fi)
     fn = fi.node
-    # transposition: exactly one `.T` store over externals keys, before the scan
+    # transposition of every input to (time, n): exactly once on the way to the scan, and unconditionally.  Either in place
+    # (`externals[key] = externals[key].T` for every key) or by rebuilding the dictionary (`{k: v.T for k, v in externals.items()}`).
     tstores = [s for s in ex.stores if s.kind == "sub" and unparse(s.node).startswith("externals[") and
                s.value.op == "attr" and s.value.name == "T"]
-    col.check(len(tstores) == 1, R, fi, "externals transposed to (time, n) exactly once",
+    events = [("store", s_, [g for g in s_.guards if g.op != "loop"]) for s_ in tstores]
+    scan_call = next((c for c in ex.calls if isinstance(c.func, ast.Name) and c.func.id == "nested_checkpoint_scan"), None)
+    if scan_call is not None:
+        st_ = ex.term(scan_call)
+        xs_t = st_.args[2] if len(st_.args) > 2 else st_.kw.get("xs")
+        if xs_t is not None:
+            for x in xs_t.walk():
+                if x.op == "dictcomp" and len(x.args) >= 3:
+                    K, V = x.args[0], x.args[1]
+                    conds = list(x.args[3:])  # comprehension conditions
+                    inner = V
+                    gs = []
+                    if inner.op == "ifexp":
+                        gs.append(inner.args[0])
+                    for tnode in [y for y in V.walk() if y.op == "attr" and y.name == "T" and y.args[0].op == "item" and y.args[0].name == 1]:
+                        events.append(("rebuild", x, gs + conds))
+    col.check(len(events) == 1, R, fi, "externals transposed to (time, n) exactly once",
               "row k of every external is consumed by scan iteration k",
-              f"{len(tstores)} transpositions of the externals", node=tstores[0].node if tstores else fn)
-    for s_ in tstores:
-        cond = [g for g in s_.guards if g.op != "loop"]
+              f"{len(events)} transpositions of the externals on the way to the scan", node=tstores[0].node if tstores else fn)
+    for kind_, s_, cond in events:
         col.check(not cond, R, fi, "the transposition to (time, n) is unconditional",
                   "stimulate/clamp store (n, time); every key is transposed",
-                  f"`{unparse(s_.node)[:40]} = ....T` runs only if `{cond[0].short(70) if cond else ''}`: a decision taken from the SHAPE cannot "
+                  f"the transposition runs only if `{cond[0].short(70) if cond else ''}`: a decision taken from the SHAPE cannot "
                   f"tell (n, time) from (time, n) when the number of steps equals the number of inputs; such a square array is left "
-                  f"untransposed and time and input axes are swapped", node=s_.node)
-    # pad / truncate block under `if t_max is not None`
-    blk = None
-    for n in walk_no_nested(fn):
-        if isinstance(n, ast.If) and any(isinstance(x, ast.Name) and x.id == "t_max" for x in ast.walk(n.test)) and blk is None:
-            blk = n
-    if blk is None:
+                  f"untransposed and time and input axes are swapped", node=getattr(s_, "node", None) or fn)
+    # ---- pad / truncate to t_max: decided on the stores into the externals dictionary and the raise statements, each with
+    # the conjunction of conditions under which it runs (whatever the nesting / order of the if-branches is)
+    from sa.termalg import term_rat as _trat
+    from sa.algebra import Rat as _Rat, Und as _Und, ONE as _ONE
+    from sa.terms import fuse_comprehensions as _fuse
+
+    def tmax_guard(g):
+        """True / False / None: `t_max is not None`, the truthiness of t_max, not about t_max"""
+        if g.op == "cmp" and g.name in ("is not", "!=") and g.args[0].op == "param" and g.args[0].name == "t_max" and \
+                g.args[1].op == "const" and g.args[1].name is None:
+            return "isnot"
+        if g.op == "param" and g.name == "t_max":
+            return "truthy"
+        return None
+
+    def is_len(t):   # <entry>.shape[0] / len(<entry>)
+        return (t.op == "sub" and t.args[0].op == "attr" and t.args[0].name == "shape" and t.args[1].op == "const" and t.args[1].name == 0) or \
+            (t.op == "call" and t.name == "len")
+
+    def is_T(t):     # the number of steps asked for: derived from t_max
+        return T.find(t, lambda x: x.op == "param" and x.name == "t_max") is not None
+
+    def direction(g):
+        """+1: the condition says 'more steps asked for than available' (T > L or T >= L), -1: the opposite, None: other"""
+        neg = False
+        while g.op == "not":
+            neg, g = not neg, g.args[0]
+        if g.op != "cmp" or len(g.args) != 2 or g.name not in ("<", "<=", ">", ">="):
+            return None
+        l, r = g.args
+        if is_T(l) and is_len(r):
+            d = 1 if g.name in (">", ">=") else -1
+        elif is_len(l) and is_T(r):
+            d = 1 if g.name in ("<", "<=") else -1
+        else:
+            return None
+        return -d if neg else d
+
+    def key_is_i(g):
+        """True: key == 'i', False: key != 'i', None: other"""
+        neg = False
+        while g.op == "not":
+            neg, g = not neg, g.args[0]
+        if g.op == "cmp" and g.name in ("==", "!=") and len(g.args) == 2 and any(a_.op == "const" and a_.name == "i" for a_ in g.args):
+            v = g.name == "=="
+            return (not v) if neg else v
+        return None
+
+    def facts(gs):
+        f = {"tmax": None, "dir": None, "is_i": None}
+        for g in gs:
+            if g.op == "loop":
+                continue
+            tg = tmax_guard(g)
+            if tg:
+                f["tmax"] = tg
+            d = direction(g)
+            if d is not None:
+                f["dir"] = d
+            ki = key_is_i(g)
+            if ki is not None:
+                f["is_i"] = ki
+        return f
+
+    ext_stores = [s_ for s_ in ex.stores if s_.kind == "sub" and unparse(s_.node).startswith("externals[") and any(tmax_guard(g) for g in s_.guards)]
+    raises_ = [(n, facts(ex.stmt_guards.get(id(n), ()))) for n in ast.walk(fn) if isinstance(n, ast.Raise)
+               and any(tmax_guard(g) for g in ex.stmt_guards.get(id(n), ()))]
+    if not ext_stores:
         raise AnalysisError("integrate: the block that pads / truncates the inputs to t_max vanished")
-    tt = ex.term(blk.test)
-    is_none_test = tt.op == "cmp" and tt.name == "is not" and tt.args[0].op == "param" and tt.args[0].name == "t_max" and \
-        tt.args[1].op == "const" and tt.args[1].name is None
-    truthy = tt.op == "param" and tt.name == "t_max"
-    col.add(R, fi, "inputs are padded / truncated whenever t_max is given", "DISCHARGED" if is_none_test else ("VIOLATED" if truthy else "UNDECIDED"),
-            "if t_max is not None" if is_none_test else
-            f"the block is guarded by `{unparse(blk.test)}`: t_max = 0.0 (exactly one step, int(0.0 // dt + 1) == 1) is falsy and is treated "
-            f"like None, so the whole stimulus is simulated instead of one step", node=blk)
-    inner = [n for n in ast.walk(blk) if isinstance(n, ast.If) and n is not blk]
-    cmpn = next((n for n in inner if isinstance(n.test, ast.Compare) and "shape[0]" in unparse(n.test)), None)
-    if cmpn is None:
-        raise AnalysisError("integrate: comparison of t_max steps with the stimulus length vanished")
-    bound = unparse(cmpn.test.left) if "shape" not in unparse(cmpn.test.left) else unparse(cmpn.test.comparators[0])
-    # the pad branch
-    pad_if = next((n for n in cmpn.body if isinstance(n, ast.If)), None)
-    ok_key = pad_if is not None and unparse(pad_if.test) in ("key == 'i'", "'i' == key")
-    col.check(ok_key, R, fi, "only the stimulus key 'i' is padded", "clamps are never extended",
-              "padding is not restricted to key 'i'", node=pad_if or cmpn)
-    if pad_if is not None:
-        raises = any(isinstance(x, ast.Raise) for x in pad_if.orelse)
-        col.check(raises, R, fi, "too-short clamps raise", "a clamp shorter than the simulation is refused",
-                  "a clamp shorter than the simulation is silently accepted", node=pad_if)
-        pads = [n for n in ast.walk(pad_if) if isinstance(n, ast.Call) and unparse(n.func) in ("jnp.zeros", "np.zeros", "jnp.ones", "np.ones", "jnp.full")]
-        col.check(len(pads) == 1 and unparse(pads[0].func).endswith("zeros"), R, fi, "stimulus is extended with zeros",
-                  "zeros", f"padding uses `{unparse(pads[0].func) if pads else '?'}`", node=pads[0] if pads else pad_if)
-        if pads:
-            shape = unparse(pads[0].args[0]) if pads[0].args else ""
-            col.check(bound in shape and "shape[0]" in shape and "shape[1]" in shape, R, fi, "pad has (T - len, n) rows",
-                      "pad completes the stimulus to T rows", f"pad shape `{shape}` does not complete to `{bound}` rows", node=pads[0])
-        cat = [n for n in ast.walk(pad_if) if isinstance(n, ast.Call) and unparse(n.func).endswith("concatenate")]
-        if cat:
-            a = unparse(cat[0].args[0])
-            col.check(a.replace(" ", "").startswith(("(externals['i'],pad", "[externals['i'],pad")), R, fi,
-                      "pad is appended after the stimulus", "zeros follow the samples",
-                      f"concatenation order `{a}` puts the pad first", node=cat[0])
-    # the truncate branch
-    trunc = [n for n in ast.walk(cmpn) if isinstance(n, ast.Assign) and n in ast.walk(ast.Module(body=cmpn.orelse, type_ignores=[]))]
-    sl = None
-    for n in cmpn.orelse:
-        for m in ast.walk(n):
-            if isinstance(m, ast.Subscript) and isinstance(m.slice, ast.Tuple) and isinstance(m.slice.elts[0], ast.Slice):
-                sl = m
-    if sl is None:
-        col.unk(R, fi, "truncation of long inputs", "slice not found", node=cmpn)
-    else:
-        s0 = sl.slice.elts[0]
-        ok = s0.lower is None and s0.upper is not None and unparse(s0.upper) == bound and s0.step is None
-        col.check(ok, R, fi, f"long inputs are cut to the same bound `{bound}`", "externals[key][:T, :]",
-                  f"inputs are truncated with `{unparse(sl)}`, not `[:{bound}, :]`", node=sl)
+    tm = {facts(s_.guards)["tmax"] for s_ in ext_stores}
+    col.add(R, fi, "inputs are padded / truncated whenever t_max is given", "DISCHARGED" if tm == {"isnot"} else ("VIOLATED" if "truthy" in tm else "UNDECIDED"),
+            "if t_max is not None" if tm == {"isnot"} else
+            "the block is guarded by the truthiness of t_max: t_max = 0.0 (exactly one step, int(0.0 // dt + 1) == 1) is falsy and is treated "
+            "like None, so the whole stimulus is simulated instead of one step", node=ext_stores[0].node)
+    pads_ = [s_ for s_ in ext_stores if T.find(s_.value, lambda x: x.op == "mcall" and x.name == "concatenate") is not None]
+    truncs_ = [s_ for s_ in ext_stores if s_ not in pads_ and T.find(s_.value, lambda x: x.op == "sub" and T.find(x.args[1], lambda y: y.op == "slice") is not None) is not None]
+    # -- the pad
+    if not pads_:
+        col.unk(R, fi, "short stimuli are extended", "no store that concatenates a pad was found", node=fn)
+    for s_ in pads_:
+        f = facts(s_.guards)
+        col.check(f["is_i"] is True, R, fi, "only the stimulus key 'i' is padded", "clamps are never extended",
+                  "padding is not restricted to key 'i': a clamp shorter than the simulation is silently extended", node=s_.node)
+        col.check(f["dir"] == 1, R, fi, "the pad runs when more steps are asked for than the stimulus has", "T > len",
+                  "the padding branch is taken in the wrong case (the comparison of t_max steps with the stimulus length is reversed)", node=s_.node)
+        cat = T.find(s_.value, lambda x: x.op == "mcall" and x.name == "concatenate")
+        parts_ = list(cat.args[1].args) if len(cat.args) > 1 and cat.args[1].op in ("list", "tuple") else []
+        fills = [(i_, x) for i_, p_ in enumerate(parts_) for x in [T.find(p_, lambda y: y.op == "mcall" and y.name in ("zeros", "ones", "full", "zeros_like", "ones_like"))] if x is not None]
+        col.check(len(fills) == 1 and fills[0][1].name == "zeros", R, fi, "stimulus is extended with zeros", "zeros",
+                  f"padding uses `{fills[0][1].name if fills else '?'}`", node=s_.node)
+        if len(fills) == 1 and len(parts_) == 2:
+            col.check(fills[0][0] == 1, R, fi, "pad is appended after the stimulus", "zeros follow the samples",
+                      "the concatenation puts the pad before the samples", node=s_.node)
+            z = fills[0][1]
+            shp = z.args[1] if len(z.args) > 1 else None
+            ok_shape = False
+            rows = None
+            if shp is not None and shp.op == "tuple" and len(shp.args) == 2:
+                def leaf(x):
+                    if is_len(x):
+                        return _Rat.atom("L")
+                    if x.op in ("call",) and x.name == "int" and is_T(x):
+                        return _Rat.atom("T")
+                    return None
+                try:
+                    rows = _trat(shp.args[0], leaf)
+                    ok_shape = rows.eq(_Rat.atom("T") - _Rat.atom("L")) and shp.args[1].op == "sub" and shp.args[1].args[0].op == "attr" and \
+                        shp.args[1].args[0].name == "shape" and shp.args[1].args[1].op == "const" and shp.args[1].args[1].name == 1
+                except _Und:
+                    ok_shape = False
+            col.check(ok_shape, R, fi, "pad has (T - len, n) rows", "pad completes the stimulus to T rows",
+                      f"pad shape is ({rows}, ...) with T = steps asked for and L = samples available: it does not complete the stimulus to T rows", node=s_.node)
+    # -- too-short clamps are refused
+    rz = [f for _n, f in raises_ if f["dir"] == 1 and f["is_i"] is False]
+    col.check(bool(rz), R, fi, "too-short clamps raise", "a clamp shorter than the simulation is refused",
+              "a clamp shorter than the simulation is silently accepted", node=(raises_[0][0] if raises_ else fn))
+    # -- truncation
+    if not truncs_:
+        col.unk(R, fi, "truncation of long inputs", "slice not found", node=fn)
+    for s_ in truncs_:
+        f = facts(s_.guards)
+        sub_ = T.find(s_.value, lambda x: x.op == "sub" and T.find(x.args[1], lambda y: y.op == "slice") is not None)
+        sl_ = sub_.args[1].args[0] if sub_.args[1].op == "tuple" else sub_.args[1]
+        lo, hi, st_ = sl_.args
+        ok = sl_.op == "slice" and lo.op == "const" and lo.name is None and st_.op == "const" and st_.name is None and is_T(hi) and \
+            hi.op == "call" and hi.name == "int"
+        col.check(ok and f["dir"] == -1, R, fi, "long inputs are cut to the number of steps asked for", "externals[key][:T, :]",
+                  f"inputs are truncated with `{sub_.short(80)}` under direction {f['dir']}: long inputs must be cut to their first T rows "
+                  f"exactly when T does not exceed their length", node=s_.node)
     # stimulus builders agree
     a = repo.func("jaxley/stimulus.py", "step_current")
     b = repo.func("jaxley/stimulus.py", "datapoint_to_step_currents")
@@ -614,7 +705,7 @@ def _recs(repo, col):
         raise AnalysisError("integrate: recording gathers not found")
     forms = []
     for lab, t, gfi in gathers:
-        regroup = T.find(t, lambda x: (x.op in ("mcall", "call")) and x.name in ("unique", "groupby", "sort", "argsort", "sorted", "sort_values", "set") and
+        regroup = T.find(t, lambda x: (x.op in ("mcall", "call")) and x.name in ("unique", "groupby", "sort", "argsort", "sorted", "sort_values", "set", "fromkeys", "drop_duplicates", "factorize", "Counter") and
                          T.find(x, lambda y: y.op == "attr" and y.name == "recordings") is not None)
         # the sequence that is walked: zip(states, indices) -- as the iterable of a comprehension or of a loop that appends
         zc = T.find(t, lambda x: x.op == "call" and x.name == "zip" and len(x.args) == 2 and
